@@ -68,6 +68,8 @@ pub struct Cfg {
     pub known:    Vec<KnownFinding>,
     pub replays_out: std::path::PathBuf,
     pub case_scale: f64,
+    /// triage aid (VERIF_SURVEY=1): every violation is only counted by signature, the search never stops
+    pub survey: bool,
 }
 
 #[derive(Clone, Debug)]
@@ -115,6 +117,7 @@ pub struct PartResult {
 }
 
 pub static PROGRESS: AtomicU64 = AtomicU64::new(0);
+pub static SURVEY_DETAILS: Mutex<BTreeMap<String, String>> = Mutex::new(BTreeMap::new());
 
 fn mix(a: u64, b: u64) -> u64 {
     let mut x = a ^ b.wrapping_mul(0x9E3779B97F4A7C15);
@@ -153,7 +156,8 @@ pub fn run_part<P: Property>(prop: &P, cfg: &Cfg) -> PartResult {
         stop: AtomicBool::new(false),
     };
     let known: Vec<&KnownFinding> = cfg.known.iter().filter(|k| k.property == cfg.property).collect();
-    let is_known = |sig: &str| known.iter().any(|k| k.signature == sig);
+    let survey = cfg.survey;
+    let is_known = |sig: &str| survey || known.iter().any(|k| k.signature == sig);
     let failure: Mutex<Option<P::Case>> = Mutex::new(None);
 
     // --- bounded-exhaustive phase
@@ -209,7 +213,8 @@ pub fn run_part<P: Property>(prop: &P, cfg: &Cfg) -> PartResult {
                             account(shared, &rep, || serde_json::to_value(&case).unwrap_or(Value::Null));
                         }
                         match &rep.verdict {
-                            Verdict::Violation { signature, .. } => {
+                            Verdict::Violation { signature, detail } => {
+                                if survey { SURVEY_DETAILS.lock().unwrap().entry(signature.clone()).or_insert_with(|| detail.clone()); }
                                 if is_known(signature) {
                                     if !failed_here.get() {
                                         *shared.res.lock().unwrap().known_hits.entry(signature.clone()).or_insert(0) += 1;
@@ -376,6 +381,12 @@ pub fn conclude(cfg: &Cfg, parts: Vec<PartResult>, started: Instant, assumptions
             println!("  {}", detail);
             exit = 1;
         }
+    }
+    if cfg.survey {
+        for (sig, n) in &known_total { println!("SURVEY {} x{}", sig, n); }
+        let mut out = String::new();
+        for (sig, d) in SURVEY_DETAILS.lock().unwrap().iter() { out.push_str(&format!("{sig}\n    {d}\n\n")); }
+        let _ = std::fs::write(evidence_path.with_file_name(format!("survey-{}.txt", cfg.property)), out);
     }
     for k in cfg.known.iter().filter(|k| k.property == cfg.property) {
         if let Some(n) = known_total.get(&k.signature) {
